@@ -289,6 +289,11 @@ def rule_worker_isolation(ctx, rep):
                         problems.append((n, f"mutation of module-level `{unparse(recv)}`"))
                     if r.type_of(base) == CONTEXT:
                         problems.append((n, f"mutation of shared context state `{unparse(recv)}`"))
+                # the shared timer is only aggregated after the pool has finished; workers must use their FileContext's timer
+                if la in ("measure", "aggregate", "start", "stop") and isinstance(recv, ast.Attribute) and recv.attr == "timer":
+                    tb = recv.value
+                    if isinstance(tb, ast.Name) and (r.type_of(tb) == CONTEXT or tb.id == "context"):
+                        problems.append((n, f"worker uses the shared run timer `{unparse(recv)}.{la}()`"))
         rep.check("R-WORKER-ISOLATION", fn.qname, fn.loc(problems[0][0]) if problems else fn.loc(), not problems, "shared-state",
                   "worker-reachable code touches shared state: " + "; ".join(p for _, p in problems[:3]),
                   path=ctx.cg.path(WORKER, q) if problems else None)
